@@ -11,6 +11,11 @@ pub fn run(ctx: &mut Ctx) {
     for case in ctx.cases("lru", 1200, true) {
         ctx.run_case("lru", case, lru_model);
     }
+    // the lossy cache at the size the library really uses (2^16 slots): enough inserts that it
+    // grows more than once
+    for case in ctx.cases("lru_default_size", 2, false) {
+        ctx.run_case("lru_default_size", case, |ctx, rng| lru_model_at(ctx, rng, 16, 300_000, 600_000));
+    }
     for case in ctx.cases("ite_table", 600, true) {
         ctx.run_case("ite_table", case, ite_table_model);
     }
@@ -44,21 +49,30 @@ pub fn run(ctx: &mut Ctx) {
 /// the lossy cache against a map model with permitted forgetting
 fn lru_model(ctx: &mut Ctx, rng: &mut Rng) {
     let bits = rng.below(7);
+    let nkeys = rng.range(2, 200);
+    let nops = rng.range(50, 2500);
+    lru_model_at(ctx, rng, bits, nkeys, nops);
+}
+
+fn lru_model_at(ctx: &mut Ctx, rng: &mut Rng, bits: usize, nkeys: usize, nops: usize) {
     let _ = rsdd::verif::take_counters();
     let mut lru: Lru<(u32, u32, u32), u64> = Lru::new(bits);
-    let nkeys = rng.range(2, 200);
-    let style = rng.below(4);
+    if bits >= 16 {
+        ctx.count("lru_default_size_histories", 1);
+    }
+    // (at the default size only the spreading styles: the point is to fill and grow the table)
+    let style = if bits >= 16 { 4 * rng.below(2) } else { rng.below(4) };
     let salt = rng.next();
     let hash_of = |k: u32| -> u64 {
         match style {
             0 => crate::rng::mix(k as u64 ^ salt),
             1 => (k % 5) as u64,                       // heavy collisions
             2 => ((k as u64) << 1) | (salt & 1),       // same low bits before growth, apart after
+            4 => k as u64,                             // dense: consecutive slots
             _ => (k as u64 % 3) << (salt % 7),         // collide at every capacity up to a point
         }
     };
     let mut model: HashMap<u32, u64> = HashMap::new();
-    let nops = rng.range(50, 2500);
     let mut hist: Vec<serde_json::Value> = Vec::new();
     let mut hits = 0u64;
     for step in 0..nops {
@@ -95,6 +109,9 @@ fn lru_model(ctx: &mut Ctx, rng: &mut Rng) {
     }
     let (_, grows, conflicts) = rsdd::verif::take_counters();
     ctx.count("lru_hits", hits);
+    if bits >= 16 {
+        ctx.count("lru_default_size_grows", grows);
+    }
     ctx.count("lru_grows", grows);
     ctx.count("lru_overwrites", conflicts);
     if grows > 0 {
